@@ -374,15 +374,10 @@ func Run(a Matrix, args ...interface{}) (Matrix, Matrix, Matrix, error) {
     inSitu.T5 = NullScalar(t)
   }
   // HouseholderBidiagonalization InSitu
-  if inSitu.HouseholderBidiagonalization.A == nil {
-    inSitu.HouseholderBidiagonalization.A = inSitu.A
-  }
-  if inSitu.HouseholderBidiagonalization.U == nil {
-    inSitu.HouseholderBidiagonalization.U = inSitu.U
-  }
-  if inSitu.HouseholderBidiagonalization.V == nil {
-    inSitu.HouseholderBidiagonalization.V = inSitu.V
-  }
+  // the caller may have replaced A, U or V since the last call
+  inSitu.HouseholderBidiagonalization.A = inSitu.A
+  inSitu.HouseholderBidiagonalization.U = inSitu.U
+  inSitu.HouseholderBidiagonalization.V = inSitu.V
   if inSitu.HouseholderBidiagonalization.Beta == nil {
     inSitu.HouseholderBidiagonalization.Beta = inSitu.T4
   }
